@@ -279,6 +279,11 @@ func init() {
 				e.emit("hist - %s harr:%s:0 hobj:%s:0 harr:%s:x", first, lim, hs([]byte(`{"a":[1],"b":{"k":2},"c":3}`)), hs([]byte(`[[1],{"k":[2]},3]`)))
 			}
 		}
+		for _, len1 := range []string{"[1 2]", "[tru]", `{"a" 1}`, "[1,]", `{"a":[1 2],"b":}x`, "[[1 2],{3}]"} {
+			for _, st := range []string{"nil", "-", "7,7,7"} {
+				e.emit("hist %s skipfast:%s skip:%s skipfast:%s valid:%s", st, hs([]byte(len1)), hs([]byte(len1)), hs([]byte(len1)), hs([]byte(len1)))
+			}
+		}
 		for i := 0; i < n; i++ {
 			k := 2 + r.intn(8)
 			var ops []string
